@@ -6,7 +6,7 @@
 From Coq Require Import List ZArith Bool Lia.
 From SVC Require Import Base.AMap Base.Res Base.Dec Model.Types Model.Pricing
   Model.Handlers Model.EndBlock Model.Step Proofs.Inv Proofs.Lemmas Proofs.InvWf
-  Proofs.DecProofs Proofs.BankLemmas Proofs.InvBank.
+  Proofs.DecProofs Proofs.BankLemmas Proofs.InvBank Proofs.CtxOps.
 Import ListNotations.
 Open Scope Z_scope.
 
@@ -324,7 +324,7 @@ Proof.
   - (* start *) apply Hsame. unfold h_start, authorized in H. inv_ok H.
     match type of H with (if ?b then _ else _) = _ => destruct b end; inv_ok H; now subst.
   - (* kill *) apply Hsame. unfold h_kill, authorized in H. inv_ok H. now subst.
-  - (* update ctx *) apply Hsame. unfold h_update_ctx, authorized in H. inv_ok H. now subst.
+  - (* update ctx *) apply Hsame. unfold h_update_ctx, update_ctx_tail, authorized in H. inv_ok H. now subst.
   - (* withdraw *) apply Hsame. unfold h_withdraw in H. inv_ok H.
     destruct (prov =? 0).
     + inv_ok H. subst. sproj. apply transfer_core in Ha. destruct Ha as (_ & -> & _). reflexivity.
@@ -332,6 +332,10 @@ Proof.
       destruct (get0 prov (earned s) =? get0 owner (own_earned s)); [|destruct (_ <? 0)]; inv_ok Ha; now subst.
   - (* transfer *) apply Hsame. unfold h_transfer in H. inv_ok H.
     apply transfer_core in H. tauto.
+  - (* module update *) apply Hsame. mod_shape H; reflexivity.
+  - (* module pause *) apply Hsame. mod_shape H; reflexivity.
+  - (* module start *) apply Hsame. mod_shape H; reflexivity.
+  - (* module kill *) apply Hsame. mod_shape H; reflexivity.
 Qed.
 
 (* the owner tops up by 60 while updating: the deposit grows by 60 and he pays 60 *)
